@@ -7,7 +7,7 @@
                               namespaces of registered names under generated NCNames, and `xmlns=""` — all `valueOK`
                               for the tables the call leaves (well-formed tables, declarable namespaces)
     fpvd_createMissingPrefixes  the call keeps "every value is `valueOK`" — for the NEW tables —, `envOK`, `nameTableOK`
-    fpvd_xstep / fpvd_xrun    every extended call / history: `Store.VOK` (invariant, well-formed tables, every value
+    fpvd_xstep / fpvd_xrun    every extended call / history: `Store.FpvdOK` (invariant, well-formed tables, every value
                               in the domain of the CURRENT tables) is kept when the arguments are in the domain of the
                               tables at the time of the call (`Store.argValuesOKAlong`)
 -/
@@ -21,30 +21,30 @@ namespace XotModel
 open HTree Repair
 
 /-- The predicate on values. -/
-abbrev VOKv (env : Env) : Value → Prop := fun v => valueOK env v = true
+abbrev fpvdVal (env : Env) : Value → Prop := fun v => valueOK env v = true
 
-theorem fpvd_qcat (env : Env) : QCat (VOKv env) := by
+theorem fpvd_qcat (env : Env) : fpvQCat (fpvdVal env) := by
   intro a b ha hb
-  simp only [VOKv, valueOK, Bool.and_eq_true, Bool.not_eq_true', List.isEmpty_eq_false_iff] at ha hb ⊢
+  simp only [fpvdVal, valueOK, Bool.and_eq_true, Bool.not_eq_true', List.isEmpty_eq_false_iff] at ha hb ⊢
   refine ⟨?_, ?_⟩
   · intro h; exact ha.1 (List.append_eq_nil_iff.mp h).1
   · rw [List.all_append, ha.2, hb.2]; rfl
 
-theorem fpv_QL_mono {Q Q' : Value → Prop} (h : ∀ v, Q v → Q' v) {ks : List HTree} (hq : QL Q ks) : QL Q' ks :=
+theorem fpv_QL_mono {Q Q' : Value → Prop} (h : ∀ v, Q v → Q' v) {ks : List HTree} (hq : fpvQL Q ks) : fpvQL Q' ks :=
   fun v hv => h v (hq v hv)
 
-theorem fpvd_QF_ext {env env' : Env} (h : PrefixExt env env') {f : Forest} (hq : Forest.QF (VOKv env) f) :
-    Forest.QF (VOKv env') f := fpv_QL_mono (fun v hv => valueOK_ext h v hv) hq
+theorem fpvd_QF_ext {env env' : Env} (h : PrefixExt env env') {f : Forest} (hq : Forest.fpvQF (fpvdVal env) f) :
+    Forest.fpvQF (fpvdVal env') f := fpv_QL_mono (fun v hv => valueOK_ext h v hv) hq
 
-/-! ### `QF` and `Tree.allNodes` of the erased trees -/
+/-! ### `fpvQF` and `Tree.allNodes` of the erased trees -/
 
 mutual
   theorem fpvd_allNodes_erase (P : Value → Bool) : ∀ t : HTree,
-      (erase t).allNodes (fun v _ => P v) = true ↔ QT (fun v => P v = true) t
+      (erase t).allNodes (fun v _ => P v) = true ↔ fpvQT (fun v => P v = true) t
     | .node h v ks => by
       rw [erase, Tree.allNodes, Bool.and_eq_true, fpvd_allList_erase P ks, fpv_QT_node]
   theorem fpvd_allList_erase (P : Value → Bool) : ∀ ks : List HTree,
-      Tree.allNodes.allList (fun v _ => P v) (eraseList ks) = true ↔ QL (fun v => P v = true) ks
+      Tree.allNodes.allList (fun v _ => P v) (eraseList ks) = true ↔ fpvQL (fun v => P v = true) ks
     | [] => by simp [eraseList, Tree.allNodes.allList, fpv_QL_nil]
     | k :: ks => by
       rw [eraseList, Tree.allNodes.allList, Bool.and_eq_true, fpvd_allNodes_erase P k, fpvd_allList_erase P ks,
@@ -53,15 +53,15 @@ end
 
 /-- "Every node of every tree of the forest has a value in the domain", as `Props` say it. -/
 theorem fpvd_QF_iff (env : Env) (f : Forest) :
-    Forest.QF (VOKv env) f ↔ ∀ r ∈ f.roots, r.erase.allNodes (fun v _ => valueOK env v) = true := by
-  unfold Forest.QF
+    Forest.fpvQF (fpvdVal env) f ↔ ∀ r ∈ f.roots, r.erase.allNodes (fun v _ => valueOK env v) = true := by
+  unfold Forest.fpvQF
   rw [fpv_QL_iff]
   exact ⟨fun h r hr => (fpvd_allNodes_erase _ r).mpr (h r hr), fun h r hr => (fpvd_allNodes_erase _ r).mp (h r hr)⟩
 
 /-! ### The arguments -/
 
 theorem fpvd_newQ_of_argValuesOK {env : Env} (c : Forest.XCall) (h : c.argValuesOK env) :
-    c.NewQ (VOKv env) := by
+    c.fpvNewQ (fpvdVal env) := by
   cases c with
   | call c => cases c <;> first | exact h | trivial
   | newNode v => exact h
@@ -76,7 +76,7 @@ namespace Forest
     leaves. -/
 theorem fpvd_repairCalls {env : Env} (he : envOK env = true) (htab : nameTableOK env = true) {f : Forest}
     {node : Nat} {env' : Env} {calls : List Call} (h : f.repairCalls env node = some (env', calls)) :
-    PrefixExt env env' ∧ ∀ c ∈ calls, c.NewQ (VOKv env') ∧ ¬ c.isTextContentSet := by
+    PrefixExt env env' ∧ ∀ c ∈ calls, c.fpvNewQ (fpvdVal env') ∧ ¬ c.fpvIsTextContentSet := by
   unfold repairCalls at h
   split at h
   · cases h
@@ -126,9 +126,9 @@ theorem fpvd_repairCalls {env : Env} (he : envOK env = true) (htab : nameTableOK
                 exact ⟨valueOK_undeclaration he1, fun hx => hx⟩
 
 theorem fpvd_repairElementF {env : Env} (he : envOK env = true) (htab : nameTableOK env = true) {f : Forest}
-    (hq : QF (VOKv env) f) (node : Nat) :
+    (hq : fpvQF (fpvdVal env) f) (node : Nat) :
     PrefixExt env (f.repairElementF env node).2.1 ∧
-      QF (VOKv (f.repairElementF env node).2.1) (f.repairElementF env node).1 := by
+      fpvQF (fpvdVal (f.repairElementF env node).2.1) (f.repairElementF env node).1 := by
   unfold repairElementF
   cases hr : f.repairCalls env node with
   | none => exact ⟨PrefixExt.refl _, hq⟩
@@ -138,9 +138,9 @@ theorem fpvd_repairElementF {env : Env} (he : envOK env = true) (htab : nameTabl
     exact ⟨hext, fpv_runCalls (fpvd_qcat env') calls (fpvd_QF_ext hext hq) hcalls⟩
 
 theorem fpvd_repairElementsF : ∀ (es : List Nat) {env : Env} {f : Forest}, envOK env = true →
-    nameTableOK env = true → QF (VOKv env) f →
+    nameTableOK env = true → fpvQF (fpvdVal env) f →
     PrefixExt env (repairElementsF es env f).2.1 ∧
-      QF (VOKv (repairElementsF es env f).2.1) (repairElementsF es env f).1
+      fpvQF (fpvdVal (repairElementsF es env f).2.1) (repairElementsF es env f).1
   | [], env, f, _, _, hq => ⟨PrefixExt.refl _, hq⟩
   | e :: rest, env, f, he, htab, hq => by
     have h1 := fpvd_repairElementF he htab hq e
@@ -157,9 +157,9 @@ theorem fpvd_repairElementsF : ∀ (es : List Nat) {env : Env} {f : Forest}, env
 /-- `create_missing_prefixes(node)`: only the prefix table grows, and every value is in the domain of
     the tables the call leaves. -/
 theorem fpvd_createMissingPrefixes {env : Env} (he : envOK env = true) (htab : nameTableOK env = true)
-    {f : Forest} (hq : QF (VOKv env) f) (node : Nat) :
+    {f : Forest} (hq : fpvQF (fpvdVal env) f) (node : Nat) :
     PrefixExt env (f.createMissingPrefixes env node).2.1 ∧
-      QF (VOKv (f.createMissingPrefixes env node).2.1) (f.createMissingPrefixes env node).1 := by
+      fpvQF (fpvdVal (f.createMissingPrefixes env node).2.1) (f.createMissingPrefixes env node).1 := by
   unfold createMissingPrefixes
   by_cases hd : f.isDocument node = true
   · rw [if_pos hd]
@@ -182,16 +182,16 @@ end Forest
 namespace Store
 
 /-- The invariant of the value-level conditions along extended histories. -/
-structure VOK (s : Store) : Prop where
+structure FpvdOK (s : Store) : Prop where
   inv : s.forest.Inv
   tables : envOK s.env = true
   names : nameTableOK s.env = true
-  values : Forest.QF (VOKv s.env) s.forest
+  values : Forest.fpvQF (fpvdVal s.env) s.forest
 
-/-- **One extended call keeps `VOK`** when its arguments are in the domain of the current tables; only
+/-- **One extended call keeps `FpvdOK`** when its arguments are in the domain of the current tables; only
     the prefix table grows. -/
-theorem fpvd_xstep {s : Store} (h : s.VOK) (c : Forest.XCall) (hw : c.wellKinded) (ha : c.argValuesOK s.env) :
-    (s.xstep c).VOK ∧ PrefixExt s.env (s.xstep c).env := by
+theorem fpvd_xstep {s : Store} (h : s.FpvdOK) (c : Forest.XCall) (hw : c.wellKinded) (ha : c.argValuesOK s.env) :
+    (s.xstep c).FpvdOK ∧ PrefixExt s.env (s.xstep c).env := by
   have hinv := Store.xstep_inv h.inv c hw
   by_cases hc : ∃ n, c = .createMissingPrefixes n
   · obtain ⟨n, rfl⟩ := hc
@@ -203,8 +203,8 @@ theorem fpvd_xstep {s : Store} (h : s.VOK) (c : Forest.XCall) (hw : c.wellKinded
     refine ⟨⟨hinv, by rw [he]; exact h.tables, by rw [he]; exact h.names, by rw [he]; exact h1⟩, ?_⟩
     rw [he]; exact PrefixExt.refl _
 
-theorem fpvd_xrun : ∀ (cs : List Forest.XCall) {s : Store}, s.VOK → (∀ c ∈ cs, c.wellKinded) →
-    s.argValuesOKAlong cs → (s.xrun cs).VOK ∧ PrefixExt s.env (s.xrun cs).env
+theorem fpvd_xrun : ∀ (cs : List Forest.XCall) {s : Store}, s.FpvdOK → (∀ c ∈ cs, c.wellKinded) →
+    s.argValuesOKAlong cs → (s.xrun cs).FpvdOK ∧ PrefixExt s.env (s.xrun cs).env
   | [], s, h, _, _ => ⟨h, PrefixExt.refl _⟩
   | c :: cs, s, h, hw, ha => by
     obtain ⟨h1, h2⟩ := fpvd_xstep h c (hw c (List.mem_cons_self ..)) ha.1
